@@ -7,7 +7,9 @@ from props import hexcommon as hc
 RULE = ("HEX-MALFORMED: per variant, single-byte damage of a valid string (every byte value at the prefix, "
         "first header, first body, middle and last positions; 23 boundary values + 1 random at every other "
         "position; thorough: all 256 at every position), every length 0..2*LEN+2 in all three prefix modes, "
-        "12 prefix variants, double damage, non-UTF-8 bytes; plus the valid stream of HEX-RT.  Each case is "
+        "12 prefix variants, adjacent double damage at every position, random double damage, non-UTF-8 bytes; plus the "
+        "valid stream of HEX-RT.  HEX-PAIR-SWEEP: all 65536 byte pairs at a header digit-pair position and at a body "
+        "digit-pair position (quick: Normal; thorough: every variant, checksum/length/Q/body/last pair).  Each case is "
         "decided against the property text (independent Python restatement) and against the model.  "
         "Non-trivial = not rejected for its length alone; distinct by case text.")
 
@@ -21,6 +23,10 @@ def run(ctx):
     cases += [c for c in suites.hex_roundtrip_cases(ctx.rng.fork("rt"), ctx.tier) if c.startswith("parse") or c.startswith("fromstr")]
     ctx.correspond("HEX-MALFORMED", cases, hb, db, flags=fl, predicate=hc.pred_parse_lenient,
                    nontrivial=lambda c, i: "InvalidStringLength" not in i)
+    sweep = suites.hex_pair_sweep_cases(ctx.rng.fork("sweep"), ctx.tier)
+    ctx.correspond("HEX-PAIR-SWEEP", sweep, hb, db, flags=fl, predicate=hc.pred_parse_lenient, coq_sample=8,
+                   nontrivial=lambda c, i: True)
+    ctx.suites["HEX-PAIR-SWEEP"]["exhaustive_over"] = "all 65536 byte pairs at each swept digit-pair position"
     kinds = ctx.suites["HEX-MALFORMED"]["outcomes"]
     ctx.notes.append("error-kind distribution is in suites.HEX-MALFORMED.outcomes: %s" % kinds)
     return finish(ctx)
